@@ -1,5 +1,6 @@
 (** Property C05 -- cursor movement and addressing.
     Only pinned statements, closed by [exact], with their assumptions printed. *)
+From Avt Require Import Gen.TermFns Proofs.TermTie.
 From Avt Require Import Oracles.Step Proofs.Inv Proofs.TermEasy Proofs.StepC05.
 
 (** For EVERY cursor command of the property (CUU, CUD, CUF, CUB, CNL, CPL, VPR, HPR, BS, CR, HT, CHT, CBT, CUP/HVP, CHA/HPA, VPA, DECSTBM, DECOM set/reset, and LF/IND/NEL/RI off the margins) and every state satisfying the invariant - wrap-pending column, rows above / inside / below the region, origin mode on or off, any tab stops - the model's control function returns exactly the state the specification [spec_cursor] describes: only cursor column, row and the wrap-pending flag change (margins for DECSTBM, origin mode for DECOM); no cell, mode or tab stop changes. *)
@@ -13,3 +14,13 @@ Theorem C05_statement : forall p p' t f t', TInv t -> execute t f = Ok t' -> hol
 Proof. exact C05_holds. Qed.
 Check C05_statement : forall p p' t f t', TInv t -> execute t f = Ok t' -> holds_C05 (mkVt p t) f (mkVt p' t') = true.
 Print Assumptions C05_statement.
+
+(** TIE BY PROOF: the scalar control functions of src/terminal.rs are REGENERATED from the Rust source on every run
+    (Gen/TermFns.v: Z-arithmetic translation with explicit no-underflow / no-negative-cast conditions) and the hand-written
+    model functions are proved equal to them, for every state satisfying the scalar invariant: executing the regenerated
+    `Terminal::execute` arm gives exactly the model's result and no usize subtraction underflows. An edit to one of these
+    Rust functions (BS CHA CNL CPL CR CUB CUD CUF CUP CUU DECSTBM G0/G1 designation SI SO VPA VPR) breaks this theorem. *)
+Theorem C05_source_tie : forall t f, TScal t -> scalar_fn f = true -> exists t', execute t f = Ok t' /\ g_execute (zabs t) f = Some (zabs t', true).
+Proof. exact tie_execute. Qed.
+Check C05_source_tie : forall t f, TScal t -> scalar_fn f = true -> exists t', execute t f = Ok t' /\ g_execute (zabs t) f = Some (zabs t', true).
+Print Assumptions C05_source_tie.
